@@ -522,6 +522,7 @@ type c18App struct {
 	finalMsg string
 	nsent    int
 	cs       grpc.ClientStream
+	panicked string
 }
 
 func c18StartApp(w *c18World, rpc int, spec c18RPCSpec, buf int) *c18App {
@@ -568,6 +569,21 @@ func (a *c18App) run(i int) {
 	op := a.ops[i]
 	method := fmt.Sprintf("/s/m%d", a.rpc)
 	var err error
+	defer func() {
+		// a panic inside the client code surfaces on this goroutine: record it as
+		// the op's result instead of losing the worker
+		if p := recover(); p != nil {
+			buf := make([]byte, 2048)
+			buf = buf[:runtime.Stack(buf, false)]
+			a.mu.Lock()
+			a.panicked = fmt.Sprintf("%v\n%s", p, buf)
+			a.over, a.final = true, "PANIC"
+			r := &a.recs[len(a.recs)-1]
+			r.Res, r.End, r.Done = "panic", a.w.now(), true
+			a.running = false
+			a.mu.Unlock()
+		}
+	}()
 	switch op {
 	case "U":
 		m := a.msg()
@@ -704,6 +720,7 @@ type c18RPCObs struct {
 	FinalMsg string        `json:"final_msg,omitempty"`
 	Got      []string      `json:"got"`
 	Hung     bool          `json:"hung,omitempty"`
+	Panic    string        `json:"panic,omitempty"`
 	EndAt    time.Duration `json:"end_at"`
 }
 
@@ -795,6 +812,7 @@ func c18Drive(c c18Case) *c18Obs {
 		synctest.Wait()
 		app.mu.Lock()
 		ro.Ops, ro.Final, ro.FinalMsg, ro.Got = append([]c18OpRec(nil), app.recs...), app.final, app.finalMsg, append([]string(nil), app.got...)
+		ro.Panic = app.panicked
 		app.mu.Unlock()
 		if ro.Hung {
 			break
@@ -1029,6 +1047,9 @@ func c18Judge(c c18Case, obs *c18Obs) *c18Judgement {
 	for ri, ro := range obs.RPCs {
 		m.newRPC()
 		var kinds []string
+		if ro.Panic != "" {
+			fail("C18", "panic", "rpc %d: the client panicked inside a stream operation: %s", ri, ro.Panic)
+		}
 		if ro.Hung {
 			fail("C18", "hang", "rpc %d never finished (client ops: %+v)", ri, ro.Ops)
 		}
